@@ -296,7 +296,8 @@ func main() {
 	var rule pgen.Rule
 	for _, r := range spec.Rules {
 		if (r.Stage == "" || r.Stage == stage) && (r.Phase == "" || r.Phase == phase) &&
-			(r.Job == "" || r.Job == job) && (r.Attempt == 0 || r.Attempt == attempt) {
+			(r.Job == "" || r.Job == job) && (r.Attempt == 0 || r.Attempt == attempt) &&
+			(r.JobPrefix == "" || strings.HasPrefix(job, r.JobPrefix)) {
 			rule = r
 			break
 		}
